@@ -126,6 +126,8 @@ def regref_signature(v, ndigits=9):
             z = complex(r)
             vals.append("%.*g%+.*gj" % (ndigits, z.real, ndigits, z.imag))
         except Exception as e:  # pole at the probe point etc.
+            if type(e).__name__ == "Timeout":
+                raise   # an enclosing watchdog fired: inconclusive for this call, not a value
             vals.append("exc:" + type(e).__name__)
     return sorted(regs), vals
 
@@ -206,6 +208,10 @@ def sym_signature(v, ndigits=9):
             z = complex(v.xreplace(sub).evalf(20))
             vals.append("%.*g%+.*gj" % (ndigits, z.real, ndigits, z.imag))
         except Exception as e:
+            if type(e).__name__ == "Timeout":
+                # the wall-clock watchdog of an enclosing common.time_limit fired while the machinery itself was
+                # evaluating: that is "inconclusive for this call", never a value of the signature
+                raise
             vals.append("exc:" + type(e).__name__)
     return names, vals
 
